@@ -107,6 +107,8 @@ def _simple(e) -> bool:
     """an expression without side effects whose value does not depend on when it is evaluated within a short helper"""
     if _pure(e):
         return True
+    if isinstance(e, ast.Call) and isinstance(e.func, ast.Attribute) and e.func.attr == "get" and _pure(e.func.value) and 1 <= len(e.args) <= 2 and all(_simple(a) for a in e.args) and not e.keywords:
+        return True  # mapping lookup
     if isinstance(e, ast.Call):
         return ast.unparse(e.func) in _SIMPLE_CALLS and not e.keywords and all(_simple(a) for a in e.args)
     if isinstance(e, ast.BinOp):
@@ -121,6 +123,10 @@ def _simple(e) -> bool:
         return _simple(e.value) and (isinstance(e.slice, ast.Slice) or _simple(e.slice))
     if isinstance(e, (ast.Tuple, ast.List)):
         return all(_simple(x) for x in e.elts)
+    if isinstance(e, ast.JoinedStr):
+        return all(isinstance(v, ast.Constant) or (isinstance(v, ast.FormattedValue) and _simple(v.value) and v.format_spec is None) for v in e.values)
+    if isinstance(e, ast.Call) and isinstance(e.func, ast.Attribute) and e.func.attr == "get" and _pure(e.func.value) and 1 <= len(e.args) <= 2 and all(_simple(a) for a in e.args) and not e.keywords:
+        return True  # mapping lookup
     return False
 
 
@@ -762,19 +768,30 @@ class TableEvaluator:
     def _rows(self, loop: ast.For, before: List[ast.stmt], methods) -> Optional[List[ast.expr]]:
         it = loop.iter
         if isinstance(it, ast.Name):
-            defs = [b for b in before if isinstance(b, ast.Assign) and len(b.targets) == 1 and isinstance(b.targets[0], ast.Name) and b.targets[0].id == it.id]
+            defs = [b.value for b in before if isinstance(b, ast.Assign) and len(b.targets) == 1 and isinstance(b.targets[0], ast.Name) and b.targets[0].id == it.id]
+            defs += [b.value for b in before if isinstance(b, ast.AnnAssign) and isinstance(b.target, ast.Name) and b.target.id == it.id and b.value is not None]
             if len(defs) != 1:
                 return None
-            it = defs[0].value
+            it = defs[0]
         if not isinstance(it, (ast.Tuple, ast.List)) or not it.elts:
             return None
         arity = len(loop.target.elts) if isinstance(loop.target, ast.Tuple) else 1
         if isinstance(loop.target, ast.Tuple):
             if not all(isinstance(t, ast.Name) for t in loop.target.elts):
                 return None
-            if not all(isinstance(r, ast.Tuple) and len(r.elts) == arity and all(_pure(e) for e in r.elts) for r in it.elts):
+            if not all(isinstance(r, ast.Tuple) and len(r.elts) == arity and all(_simple(e) for e in r.elts) for r in it.elts):
                 return None
             cells = [e for r in it.elts for e in r.elts]
+            # cells that are not plain paths may be substituted only where the loop variable is read at most once
+            if not all(_pure(e) for e in cells):
+                reads: Dict[str, int] = {}
+                for b in loop.body:
+                    for n in ast.walk(b):
+                        if isinstance(n, ast.Name) and isinstance(n.ctx, ast.Load):
+                            reads[n.id] = reads.get(n.id, 0) + 1
+                for col, t in enumerate(loop.target.elts):
+                    if reads.get(t.id, 0) > 1 and not all(_pure(r.elts[col]) for r in it.elts):
+                        return None
         else:
             if not isinstance(loop.target, ast.Name) or not all(_pure(r) for r in it.elts):
                 return None
@@ -784,8 +801,12 @@ class TableEvaluator:
         is_dispatch = any(isinstance(e, ast.Attribute) and isinstance(e.value, ast.Name) and e.value.id == "self" and e.attr in methods for e in cells)
         is_locals = not isinstance(loop.target, ast.Tuple) and 2 <= len(cells) <= 4 and all(isinstance(e, ast.Name) for e in cells)
         # `for table in (self.aliases, self.struct_defs, self.message_defs):` - a fixed sequence of the object's own tables
-        is_attrs = not isinstance(loop.target, ast.Tuple) and 2 <= len(cells) <= 6 and all(isinstance(e, ast.Attribute) and isinstance(e.value, ast.Name) and e.value.id == "self" for e in cells)
-        if not (is_dispatch or is_locals or is_attrs):
+        is_attrs = not isinstance(loop.target, ast.Tuple) and 2 <= len(cells) <= 8 and all(isinstance(e, (ast.Attribute, ast.Name)) for e in cells) \
+            and any(isinstance(e, ast.Attribute) and isinstance(e.value, ast.Name) and e.value.id == "self" for e in cells)
+        # a small literal table of (where to look, what to answer) rows searched in order: rows of several cells, at least
+        # one of which is a path (not a bare literal sequence such as (8, 4, 2, 1))
+        is_table = isinstance(loop.target, ast.Tuple) and 2 <= len(it.elts) <= 8 and any(isinstance(e, (ast.Attribute, ast.Name)) for e in cells)
+        if not (is_dispatch or is_locals or is_attrs or is_table):
             return None
         names = {t.id for t in (loop.target.elts if isinstance(loop.target, ast.Tuple) else [loop.target])}
         for b in loop.body:
